@@ -268,6 +268,8 @@ SvgStep(k, rec, full) ==
   IF rec.kind # "Ok" THEN OkKind(k, rec, "C12")
   ELSE LET reg == RegsAfter(rec.program) o == rec.obs n == rec.size IN
        /\ Require(rec.qr_unchanged = 1, k, rec, "C14", "rendering modified the QR code")
+       \* a builder object that has already rendered: same final registers as a fresh builder, so the same document
+       /\ Require("fresh_eq" \notin DOMAIN rec \/ rec.fresh_eq = 1, k, rec, "C14", "a rendering depends on earlier renderings or on the order of setter calls and renderings of its builder, not on the final options alone")
        /\ Require(o.wellformed = 1, k, rec, "C12", "document is not well-formed XML")
        /\ (o.wellformed = 1 =>
              /\ Require(SvgStructure(reg, n, o), k, rec, "C12", "root element, viewBox or background rectangle geometry")
@@ -450,8 +452,13 @@ ApiContractsStep(k, rec) ==
   /\ Require(rec.module_eq = <<1, 1, 1, 0, 1, 0>>, k, rec, "G04", "Module comparison / From<bool>")
   /\ Require(rec.image_err_display = <<98, 111, 111, 109>>, k, rec, "G03", "ImageError does not print its message")
 
+RasterSessionStep(k, rec) ==
+  /\ OkKind(k, rec, "C13")
+  /\ Require(\A i \in DOMAIN rec.renders : rec.renders[i][3] = 1, k, rec, "C14", "a rendering depends on earlier renderings or on the order of setter calls and renderings of its builder, not on the final options alone")
+
 StepOf(k, rec, ly, s) ==
-  CASE rec.ev = "SvgCallback" -> (IF CallbackStep(k, rec) THEN s ELSE s)
+  CASE rec.ev = "RasterSession" -> (IF RasterSessionStep(k, rec) THEN s ELSE s)
+    [] rec.ev = "SvgCallback" -> (IF CallbackStep(k, rec) THEN s ELSE s)
     [] rec.ev = "ApiContracts" -> (IF ApiContractsStep(k, rec) THEN s ELSE s)
     [] rec.ev = "ConvColor" -> (IF ConvColorStep(k, rec) THEN s ELSE s)
     [] rec.ev = "ConvShape" -> (IF ConvShapeStep(k, rec) THEN s ELSE s)
